@@ -105,6 +105,22 @@ def run(ctx, res):
                     tasks.append((fmt, rng.choice(choices), 0 if fmt == "fido-u2f" else nint, "normal", fault, rootcfg, False))
     work.driver_ok = ctx.driver_ok
     corr.merge(res, corr.parallel(work, tasks))
+    # "currently valid": the chain scenarios of the C17 worker (controlled clock: offsets around every validity edge, a new
+    # response over the same certificates after they expired, the attestation certificate pinned as anchor) also decide C04
+    import os, pickle, subprocess, sys
+    from .. import common
+    so = os.path.join(common.VERIF, "harness", "fakeclock.so")
+    if os.path.exists(so):
+        env = dict(os.environ, PYTHONPATH=common.VERIF, VERIF_C17_TIER=ctx.tier, VERIF_C17_SEED=str(ctx.seed),
+                   VERIF_C17_DRIVER="1" if ctx.driver_ok else "0", LD_PRELOAD=so, VERIF_C17_ROUTE="ld_preload", TZ="UTC0",
+                   VERIF_C17_PART="chain")
+        p = subprocess.run([sys.executable, "-m", "harness.props.C17_worker"], env=env, cwd=common.VERIF, capture_output=True)
+        if p.returncode != 0:
+            raise RuntimeError("clock worker failed:\n" + p.stderr.decode()[-3000:])
+        corr.merge(res, [pickle.loads(p.stdout)])
+    else:
+        ctx.notes.append("fakeclock.so missing: the clock scenarios of C04 were not run")
     res.rule = ("CA simulator: x5c-bearing formats x chain shapes (direct, 1-2 intermediates, reversed order, unrelated extras) x root "
                 "configurations (own, none, own+other, only-other-format, other-root, intermediate-as-root) x 12 chain faults; the expected "
-                "verdict comes from how the chain was built; distinct = (format, key, shape, fault, root configuration)")
+                "verdict comes from how the chain was built; plus, under a controlled clock, offsets around every validity edge, new responses over "
+                "certificates that have expired since they were first seen, and the leaf pinned as anchor; distinct = (format, key, shape, fault, root configuration)")
